@@ -1,18 +1,25 @@
 /-
   C15 — `typeOf`: transcription of `x/exp/schema/validate/typechecker.go` (`typeOfExpr` and its
-  per-node functions) for a FRAGMENT, and `validatePolicy` (`policy.go`: scope filter + `typecheckConditions`).
+  per-node functions), and `validatePolicy` (`policy.go`: scope validation, `validateActionApplication`,
+  environment filter + `typecheckConditions`).
 
-  Fragment (everything else answers `unsupported`, which the driver prints as `skip`):
+  Covered: every node kind —
     literals (Bool/Long/String/EntityUID), the four variables, `&& || ! if` with the True/False singleton
     types and capability propagation, `== !=` (same-variable, literal and disjoint-entity-type folding,
     strict LUB test), `< <= > >=` (both sides the SAME comparable type), `+ - *`, unary minus,
-    `has` / `.` on RECORD types with required/optional attributes and capabilities, set and record literals
-    (LUB of element types, strict empty-set rule), `contains/containsAll/containsAny/isEmpty`, `like`,
-    every extension function of `extFuncTypes` (constructors with the strict literal rule and
-    `validateExtensionValue`), unknown functions (rejected; `Ty.nil`, the type the unrepaired code gave a
-    zero-argument call of an unknown function, is no longer introduced by any rule of `typeOf`).
-  Outside: `has`/`.` on entity types, `in`, `is`, `is..in`, `getTag`, `hasTag`, scopes other than
-  `all` / `is T` (principal, resource) and `all` / `== uid` (action).
+    `has` / `.` on RECORD and ENTITY types (entity LUBs: `lookupEntityAttr` / `hasResultTypeEntity`) with
+    required/optional attributes and capabilities keyed by structural access paths, `is` (True/False folding from the
+    static entity LUB), `in` (right operand entity or set of entities; static False from the entity-type hierarchy walks
+    `isEntityDescendant` / `anyEntityDescendantOf`; True/False folding of `action in …` from the schema's action
+    hierarchy: `exprToActionEUID(s)`, `isActionInSet`), `is … in` (no folding in the Go code), `hasTag` / `getTag` (tag
+    capabilities, `entityHasTags`, `entityTagType`), set and record literals (LUB of element types, strict empty-set
+    rule), `contains/containsAll/containsAny/isEmpty`, `like`, every extension function of `extFuncTypes`
+    (constructors with the strict literal rule and `validateExtensionValue`), unknown functions (rejected);
+    every scope form (`==`, `in`, `is`, `is … in` for principal / resource with `getEntityTypesIn`; `==`, `in`,
+    `in [ … ]` for the action with `getActionsInSet`).
+  Outside (`unsupported`, which the driver prints as `skip`): set / record / extension VALUES as literals (the parser never
+  produces them), and a hierarchy walk that runs out of fuel (the entity walk provably does not:
+  `C15_isEntityDescendant_total`; the action walk does not on the acyclic hierarchies schema resolution lets through).
 
   Only the accept/reject decision is modelled: the Go functions keep collecting errors and compute
   recovery types; every path on which an error was recorded ends in `reject` here (any recorded error
@@ -21,7 +28,8 @@
   `dom = false` is the Go algorithm.  `dom = true` additionally rejects what lies outside the domain
   of `C15_typeOf_sound_partial` (each is either a confirmed defect of the Go code or a part of the
   proof not done): the permissive record LUB that drops an attribute, non-literal constructor arguments, the
-  same-variable rule for `context == context`.
+  same-variable rule for `context == context`, `hasTag` / `getTag` on an entity LUB of which some but not all elements
+  declare tags (`mixedTags`).
   (Comparisons of two DIFFERENT comparable types, unknown functions and attribute names containing `'.'` in
   `has`/`.` used to be on this list; since the repairs of `comparison-mixed-comparable-types` and
   `unknown-function-zero-args` the Go algorithm rejects the first two itself, and since the repair of
@@ -160,6 +168,76 @@ def containsAAResult (dom strict : Bool) (caps : Caps) (rl rr : TRes) : TRes :=
       | .set a, .set b => if strict && (lub dom strict a b).isNone then .error .reject else .ok (.bool, caps)
       | _, _ => .error .reject
 
+/-- `typeOfIs` once the operand has an entity type: the tested type is not an element of the LUB ↦ False, the LUB is
+    exactly that type ↦ True -/
+def isResult (tys : List String) (ty : String) : Ty :=
+  if !tys.contains ty then .ff else if tys == [ty] then .tt else .bool
+
+/-- the special case of `typeOfIn`: the left operand is the `action` variable or an action literal and the right one
+    resolves to entity literals: fold from the schema's ACTION hierarchy.  `none` = the special case does not apply -/
+def actionInFold (Γ : TEnv) (l r : Expr) : Option (Except TErr Ty) :=
+  match exprToActionEUID Γ l with
+  | none => none
+  | some a =>
+    match exprToActionEUIDs Γ r with
+    | none => none
+    | some us =>
+      let acts := us.filter (fun u => Γ.actions.contains u)
+      if acts.isEmpty then some (.ok .ff) else
+      match isActionInSet Γ a acts with
+      | none => some (.error .unsupported)
+      | some true => some (.ok .tt)
+      | some false => some (.ok .ff)
+
+/-- the entity LUB of the right operand of `in` (`nil` for a set of `Never`) -/
+def rhsLub : Ty → Option (List String)
+  | .entity r => some r
+  | .set (.entity r) => some r
+  | _ => none
+
+/-- `typeOfIn` once both sides type-checked (no error recorded) -/
+def inResult (Γ : TEnv) (l r : Expr) (lt rt : Ty) : Except TErr Ty :=
+  match lt with
+  | .entity ltys =>
+    if !isEntityOrSetOfEntity rt then .error .reject else
+    match actionInFold Γ l r with
+    | some res => res
+    | none =>
+      match rhsLub rt with
+      | none => .ok .bool
+      | some rtys =>
+        -- no element of the left LUB can be a descendant of (or the same type as) an element of the right one ↦ False
+        match anyEntityDescendantOf Γ ltys rtys with
+        | none => .error .unsupported
+        | some true => .ok .bool
+        | some false => .ok .ff
+  | _ => .error .reject
+
+/-- `typeOfHasTag` once both sides type-checked (no error recorded) -/
+def hasTagResult (dom : Bool) (Γ : TEnv) (l r : Expr) (lt rt : Ty) (caps : Caps) : TRes :=
+  match lt, rt with
+  | .entity tys, .string =>
+    if dom && mixedTags Γ tys then .error .reject else
+    if !entityHasTags Γ tys then .ok (.ff, caps) else
+    let p := exprCapPath l
+    let k := tagCapabilityKey r
+    .ok (.bool, if !p.isEmpty && k != "" then caps.addTag p k else caps)
+  | _, _ => .error .reject
+
+/-- `typeOfGetTag` once both sides type-checked (no error recorded): the tag type of the LUB, provided the tag
+    capability (same access path, string-literal key) is held -/
+def getTagResult (dom : Bool) (Γ : TEnv) (l r : Expr) (lt rt : Ty) (caps : Caps) : Except TErr Ty :=
+  match lt, rt with
+  | .entity tys, .string =>
+    if dom && mixedTags Γ tys then .error .reject else
+    match entityTagType dom Γ.strict Γ .never tys with
+    | none => .error .reject
+    | some tagTy =>
+      let p := exprCapPath l
+      let k := tagCapabilityKey r
+      if !p.isEmpty && k != "" && caps.hasTag p k then .ok tagTy else .error .reject
+  | _, _ => .error .reject
+
 mutual
 /-- `Validator.typeOfExpr` -/
 def typeOf (dom : Bool) (Γ : TEnv) : Expr → Caps → TRes
@@ -293,17 +371,59 @@ def typeOf (dom : Bool) (Γ : TEnv) : Expr → Caps → TRes
   -- typeOfContainsAllAny
   | .binop .containsAll l r, caps => containsAAResult dom Γ.strict caps (typeOf dom Γ l caps) (typeOf dom Γ r caps)
   | .binop .containsAny l r, caps => containsAAResult dom Γ.strict caps (typeOf dom Γ l caps) (typeOf dom Γ r caps)
-  | .binop .in_ _ _, _ => .error .unsupported
-  | .binop .getTag _ _, _ => .error .unsupported
-  | .binop .hasTag _ _, _ => .error .unsupported
-  | .is _ _, _ => .error .unsupported
-  | .isIn _ _ _, _ => .error .unsupported
+  -- typeOfIn
+  | .binop .in_ l r, caps =>
+    match typeOf dom Γ l caps with
+    | .error e => .error e
+    | .ok (lt, _) =>
+      match typeOf dom Γ r caps with
+      | .error e => .error e
+      | .ok (rt, _) =>
+        match inResult Γ l r lt rt with
+        | .ok t => .ok (t, caps)
+        | .error e => .error e
+  -- typeOfGetTag
+  | .binop .getTag l r, caps =>
+    match typeOf dom Γ l caps with
+    | .error e => .error e
+    | .ok (lt, _) =>
+      match typeOf dom Γ r caps with
+      | .error e => .error e
+      | .ok (rt, _) =>
+        match getTagResult dom Γ l r lt rt caps with
+        | .ok t => .ok (t, caps)
+        | .error e => .error e
+  -- typeOfHasTag
+  | .binop .hasTag l r, caps =>
+    match typeOf dom Γ l caps with
+    | .error e => .error e
+    | .ok (lt, _) =>
+      match typeOf dom Γ r caps with
+      | .error e => .error e
+      | .ok (rt, _) => hasTagResult dom Γ l r lt rt caps
+  -- typeOfIs
+  | .is e ty, caps =>
+    match typeOf dom Γ e caps with
+    | .error x => .error x
+    | .ok (t, _) =>
+      match t with
+      | .entity tys => .ok (isResult tys ty, caps)
+      | _ => .error .reject
+  -- typeOfIsIn (no static folding)
+  | .isIn e _ r, caps =>
+    match typeOf dom Γ e caps with
+    | .error x => .error x
+    | .ok (lt, _) =>
+      match typeOf dom Γ r caps with
+      | .error x => .error x
+      | .ok (rt, _) =>
+        if isEntityTy lt && isEntityOrSetOfEntity rt then .ok (.bool, caps) else .error .reject
   -- typeOfLike
   | .like e _, caps =>
     match typeOf dom Γ e caps with
     | .error e => .error e
     | .ok (t, _) => match t with | .string => .ok (.bool, caps) | _ => .error .reject
-  -- typeOfHas (record types only)
+  -- typeOfHas
   | .has e a, caps =>
     match typeOf dom Γ e caps with
     | .error e => .error e
@@ -317,9 +437,14 @@ def typeOf (dom : Bool) (Γ : TEnv) : Expr → Caps → TRes
         | none => .ok (.ff, caps')
         | some (_, true) => .ok (.tt, caps')
         | some (_, false) => .ok (if !p.isEmpty && caps.has p a then .tt else .bool, caps')
-      | .entity _ => .error .unsupported
+      | .entity tys =>
+        let p := exprCapPath e
+        let caps' := if p.isEmpty then caps else caps.add p a
+        -- hasResultTypeEntity: no element declares it ↦ False, otherwise Bool (True when the capability is already held)
+        if anyHasAttr Γ tys a then .ok (if !p.isEmpty && caps.has p a then .tt else .bool, caps')
+        else .ok (.ff, caps')
       | _ => .error .reject
-  -- typeOfAccess (record types only)
+  -- typeOfAccess
   | .access e a, caps =>
     match typeOf dom Γ e caps with
     | .error e => .error e
@@ -331,7 +456,12 @@ def typeOf (dom : Bool) (Γ : TEnv) : Expr → Caps → TRes
         | some (aty, req) =>
           let p := exprCapPath e
           if !req && (p.isEmpty || !caps.has p a) then .error .reject else .ok (aty, caps)
-      | .entity _ => .error .unsupported
+      | .entity tys =>
+        match lookupEntityAttr dom Γ.strict Γ tys a with
+        | none => .error .reject
+        | some (aty, req) =>
+          let p := exprCapPath e
+          if !req && (p.isEmpty || !caps.has p a) then .error .reject else .ok (aty, caps)
       | _ => .error .reject
   -- typeOfSet
   | .set es, caps =>
@@ -391,12 +521,20 @@ end
 structure ActionDecl where
   uid : UID
   appliesTo : Option (List String × List String × Attrs)   -- principals, resources, context
+  parents : List UID := []                                  -- `Entity.Parents`
 deriving Repr, Inhabited
 
 structure SchemaLite where
-  entityTypes : List String
+  entityTypes : List String                        -- declared entity types and enum types
   actions : List ActionDecl
+  entities : List (String × EntityDecl) := []      -- `schema.Entities`
 deriving Repr, Inhabited
+
+/-- what every request environment shares -/
+def baseEnv (s : SchemaLite) (strict : Bool) : TEnv :=
+  { principalType := "", action := ("", ""), resourceType := "", context := [],
+    entityTypes := s.entityTypes, actions := s.actions.map (·.uid), strict := strict,
+    entityDecls := s.entities, actionParents := s.actions.map (fun a => (a.uid, a.parents)) }
 
 /-- `generateRequestEnvs` -/
 def requestEnvs (s : SchemaLite) (strict : Bool) : List TEnv :=
@@ -405,19 +543,74 @@ def requestEnvs (s : SchemaLite) (strict : Bool) : List TEnv :=
     | none => []
     | some (ps, rs, ctx) =>
       ps.flatMap fun p => rs.map fun r =>
-        { principalType := p, action := a.uid, resourceType := r, context := ctx,
-          entityTypes := s.entityTypes, actions := s.actions.map (·.uid), strict := strict }
+        { baseEnv s strict with principalType := p, action := a.uid, resourceType := r, context := ctx }
 
-/-- principal / resource scope: `none` = no constraint -/
+/-- one pass of the `for changed` loop of `getEntityTypesIn` -/
+def typesInPass (ents : List (String × EntityDecl)) (result : List String) : List String × Bool :=
+  ents.foldl (fun (acc : List String × Bool) e =>
+    if acc.1.contains e.1 then acc
+    else if e.2.parents.any (fun p => acc.1.contains p) then (acc.1 ++ [e.1], true)
+    else acc) (result, false)
+
+def typesInLoop (ents : List (String × EntityDecl)) : Nat → List String → List String
+  | 0, res => res
+  | fuel + 1, res =>
+    match typesInPass ents res with
+    | (res', true) => typesInLoop ents fuel res'
+    | (res', false) => res'
+
+/-- `getEntityTypesIn`: the target and every declared entity type below it (every pass but the last adds a type, so
+    `|entities| + 1` passes suffice) -/
+def getEntityTypesIn (s : SchemaLite) (target : String) : List String :=
+  typesInLoop s.entities (s.entities.length + 1)
+    (target :: (s.entities.filter fun e => e.2.parents.contains target).map (·.1))
+
+/-- `validateScopeEntity` / `validateScopeType` -/
+def scopeEntityOK (s : SchemaLite) (u : UID) : Bool := (typeOfEntityUID (baseEnv s true) u.1 u.2).isSome
+
+/-- `validatePrincipalScope` / `validateResourceScope`: `none` = no constraint (Go `nil`) -/
 def scopeTypes (s : SchemaLite) : Scope → Except TErr (Option (List String))
   | .all => .ok none
+  | .eq u => if scopeEntityOK s u then .ok (some [u.1]) else .error .reject
+  | .in_ u => if scopeEntityOK s u then .ok (some (getEntityTypesIn s u.1)) else .error .reject
   | .is t => if s.entityTypes.contains t then .ok (some [t]) else .error .reject
-  | _ => .error .unsupported
+  | .isIn t u =>
+    if !s.entityTypes.contains t then .error .reject
+    else if !scopeEntityOK s u then .error .reject
+    else if (getEntityTypesIn s u.1).contains t then .ok (some [t]) else .ok (some [])
+  | .inSet _ => .error .unsupported   -- not a principal / resource scope
 
+/-- `getActionsInSet`: every target followed by the schema actions below it; `none` = the descent ran out of fuel -/
+def getActionsInSet (s : SchemaLite) : List UID → Option (List UID)
+  | [] => some []
+  | u :: us =>
+    match (s.actions.map (·.uid)).mapM (fun a =>
+        if a == u then some [] else
+        match isActionDescendant (baseEnv s true) a u with
+        | none => none
+        | some true => some [a]
+        | some false => some []) with
+    | none => none
+    | some below =>
+      match getActionsInSet s us with
+      | none => none
+      | some rest => some (u :: below.flatten ++ rest)
+
+/-- `validateAndGetActionUIDs` -/
 def scopeActions (s : SchemaLite) : Scope → Except TErr (Option (List UID))
   | .all => .ok none
   | .eq u => if (s.actions.map (·.uid)).contains u then .ok (some [u]) else .error .reject
-  | _ => .error .unsupported
+  | .in_ u =>
+    if !(s.actions.map (·.uid)).contains u then .error .reject else
+    match getActionsInSet s [u] with
+    | none => .error .unsupported
+    | some us => .ok (some us)
+  | .inSet us =>
+    if !us.all (fun u => (s.actions.map (·.uid)).contains u) then .error .reject else
+    match getActionsInSet s us with
+    | none => .error .unsupported
+    | some r => .ok (some r)
+  | _ => .error .unsupported   -- not an action scope
 
 /-- `validateActionApplication` -/
 def actionApplies (s : SchemaLite) (pts rts : Option (List String)) (acts : Option (List UID)) : Bool :=
@@ -447,7 +640,7 @@ def validatePolicy (dom : Bool) (s : SchemaLite) (strict : Bool) (p : Policy) : 
   let envs := (requestEnvs s strict).filter fun Γ =>
     (match pts with | none => true | some ts => ts.contains Γ.principalType) &&
     (match rts with | none => true | some ts => ts.contains Γ.resourceType) &&
-    (match acts with | none => true | some us => us.contains Γ.action)
+    (match acts with | none => true | some us => us.isEmpty || us.contains Γ.action)
   let oks ← p.conditions.mapM fun (c : Bool × Expr) => envs.mapM fun Γ => condOK dom Γ c.2
   .ok (actionApplies s pts rts acts && oks.all (fun l => l.all id))
 
